@@ -204,6 +204,10 @@ func flatExpr(e J, out *[]any) {
 	case "num":
 		*out = append(*out, "num", fmt.Sprint(e["v"]))
 	case "portion":
+		if e["big"] == true {
+			*out = append(*out, "portionbig", e["ns"], e["ds"])
+			return
+		}
 		n, d := big.NewInt(int64(e["n"].(int))), big.NewInt(int64(e["d"].(int)))
 		g := new(big.Int).GCD(nil, nil, n, d)
 		if g.Sign() == 0 {
